@@ -134,10 +134,10 @@ def PcInv (P : Params) (s : St) : Prop :=
   | .fresh => s.disk = {} ∧ s.g = {}
   | .store m h b i =>
     i < 10 ∧ s.disk = execOps {} ((storeOps P.codec m h b).take i) ∧
-    s.g = { orig := m.to, hdr := h, body := b } ∧ P.hdrOk h = true
+    s.g = { orig := m.to, hdr := h, body := b, nullFrom := m.nullFrom } ∧ P.hdrOk h = true
   | .stored m =>
     s.disk = { header := some ⟨s.g.hdr, []⟩, body := some ⟨s.g.body, []⟩, metaF := some ⟨P.codec.ser m, []⟩ } ∧
-    s.g = { orig := m.to, hdr := s.g.hdr, body := s.g.body, commits := [m] } ∧ P.hdrOk s.g.hdr = true
+    s.g = { orig := m.to, hdr := s.g.hdr, body := s.g.body, commits := [m], nullFrom := m.nullFrom } ∧ P.hdrOk s.g.hdr = true
   | .abortRm i =>
     i < 3 ∧ s.g.removing = true ∧ s.g.accepted = false ∧ s.g.aborted = false ∧ s.g.attempts = []
   | .sched (some m) =>
@@ -397,6 +397,25 @@ theorem diskInv_term_removing {P : Params} {d : Disk} {g : Ghost} (t' : List Add
   · exact h.chainA
   · exact h.headSub
 
+/-- The bookkeeping of WHICH terminal outcome a recipient got (delivered / reported / given up for the
+null reverse-path) is not read by the invariant. -/
+theorem diskInv_account {P : Params} {d : Disk} {g : Ghost} (a b c : List Addr) (h : DiskInv P d g) :
+    DiskInv P d { g with dlv := a, reported := b, gaveUp := c } := by
+  constructor
+  · exact h.metaOk
+  · exact h.contentH
+  · exact h.contentB
+  · exact h.hdrOk
+  · exact h.present
+  · exact h.accMeta
+  · exact h.surv
+  · exact h.abortedClean
+  · exact h.chainC
+  · exact h.commitsOrig
+  · exact h.attFrom
+  · exact h.chainA
+  · exact h.headSub
+
 /-- A removal begins: allowed once every recipient of an accepted message has its outcome. -/
 theorem diskInv_setRemoving {P : Params} {d : Disk} {g : Ghost} (h : DiskInv P d g)
     (hall : g.accepted = true → ∀ r, r ∈ g.orig → r ∈ g.term) :
@@ -513,8 +532,8 @@ theorem inv_init (P : Params) : Inv P {} := by
   · constructor <;> simp
   · simp [PcInv]
 
-theorem inv_accept {P : Params} {s s' : St} {rcpts : List Addr} {h b : Bytes}
-    (hi : Inv P s) (hs : step? P s (.accept rcpts h b) = some s') : Inv P s' := by
+theorem inv_accept {P : Params} {s s' : St} {rcpts : List Addr} {h b : Bytes} {nf : Bool}
+    (hi : Inv P s) (hs : step? P s (.accept rcpts h b nf) = some s') : Inv P s' := by
   cases hpc : s.pc <;> simp [step?, hpc] at hs
   obtain ⟨hok, rfl⟩ := hs
   have hp := hi.pc
@@ -638,7 +657,7 @@ theorem inv_op {P : Params} {s s' : St} (hi : Inv P s) (hs : step? P s .op = som
 /-- The state right after `storeNewMessage`: all three files complete and durable. -/
 theorem diskInv_stored {P : Params} (m : SMeta) (h b : Bytes) (acc : Bool) (hok : P.hdrOk h = true) :
     DiskInv P { header := some ⟨h, []⟩, body := some ⟨b, []⟩, metaF := some ⟨P.codec.ser m, []⟩ }
-      { orig := m.to, hdr := h, body := b, commits := [m], accepted := acc } := by
+      { orig := m.to, hdr := h, body := b, commits := [m], accepted := acc, nullFrom := m.nullFrom } := by
   constructor
   · intro f hf; simp at hf; subst hf; exact ⟨m, rfl, rfl⟩
   · intro _ f hf; simp at hf; exact hf.symm
@@ -791,7 +810,8 @@ theorem inv_outcome {P : Params} {s s' : St} {e : Errs} (hi : Inv P s)
     cases hs
     have hnil' : (attemptResult P m e).newR = [] := by simpa using hnil
     constructor
-    · refine diskInv_term_removing (g := s.g) _ hi.disk ?_
+    · refine diskInv_account (g := { s.g with term := _, removing := true }) _ _ _
+        (diskInv_term_removing (g := s.g) _ hi.disk ?_)
       intro ha r hr
       rcases hcov ha r hr with h1 | h1
       · simpa [List.append_assoc] using h1
@@ -799,8 +819,10 @@ theorem inv_outcome {P : Params} {s s' : St} {e : Errs} (hi : Inv P s)
     · simp [PcInv, hab]
   · cases hs
     constructor
-    · refine diskInv_termSup (g := s.g) _ hi.disk ?_
-      intro r hr; simp [hr]
+    · have h1 := diskInv_termSup (g := s.g) (s.g.term ++ (delivered m e ++ (attemptResult P m e).failedR)) hi.disk
+        (by intro r hr; simp [hr])
+      exact diskInv_account (s.g.dlv ++ delivered m e) (s.g.reported ++ reportedNow m (attemptResult P m e))
+        (s.g.gaveUp ++ gaveUpNow m (attemptResult P m e)) h1
     · simp only [PcInv]
       refine ⟨by omega, by simp [metaNewShape], ⟨m, hhead, ?_⟩, ?_, by simp [hmf], hab⟩
       · exact attempt_newR_sub P m e
@@ -904,7 +926,7 @@ theorem inv_restart {P : Params} {s s' : St} (hi : Inv P s) (hs : step? P s .res
 theorem inv_step {P : Params} {s s' : St} (c : Choice) (hi : Inv P s) (hs : step? P s c = some s') :
     Inv P s' := by
   cases c with
-  | accept r h b => exact inv_accept hi hs
+  | accept r h b nf => exact inv_accept hi hs
   | op => exact inv_op hi hs
   | commit => exact inv_commit hi hs
   | abort => exact inv_abort hi hs
@@ -1131,6 +1153,283 @@ theorem C02_meta_never_torn (P : Params) (s : St) (h : Reach P s) (f : File)
   cases hc : s.g.commits with
   | nil => simp [hc] at hm
   | cons a t => simp [hc] at hm; simp [hm]
+
+/-! ## which terminal outcome: delivered, reported, or (null reverse-path only) given up without a report -/
+
+/-- The metadata a program point carries in memory. -/
+def pcMeta : Pc → Option SMeta
+  | .store m _ _ _ => some m
+  | .stored m => some m
+  | .sched (some m) => some m
+  | .attempting m => some m
+  | .update m _ => some m
+  | _ => none
+
+structure AcctInv (s : St) : Prop where
+  commitsFrom : ∀ m, m ∈ s.g.commits → m.nullFrom = s.g.nullFrom
+  pcFrom : ∀ m, pcMeta s.pc = some m → m.nullFrom = s.g.nullFrom
+  split : ∀ r, r ∈ s.g.term → r ∈ s.g.dlv ∨ r ∈ s.g.reported ∨ r ∈ s.g.gaveUp
+  noSilent : s.g.nullFrom = false → s.g.gaveUp = []
+  noReport : s.g.nullFrom = true → s.g.reported = []
+
+theorem acct_same {s s' : St} (ha : AcctInv s)
+    (hc : ∀ m, m ∈ s'.g.commits → m ∈ s.g.commits ∨ pcMeta s.pc = some m)
+    (hp : ∀ m, pcMeta s'.pc = some m → pcMeta s.pc = some m ∨ m ∈ s.g.commits)
+    (hn : s'.g.nullFrom = s.g.nullFrom) (ht : s'.g.term = s.g.term) (hd : s'.g.dlv = s.g.dlv)
+    (hr : s'.g.reported = s.g.reported) (hg : s'.g.gaveUp = s.g.gaveUp) : AcctInv s' := by
+  constructor
+  · intro m hm; rw [hn]
+    rcases hc m hm with h | h
+    · exact ha.commitsFrom m h
+    · exact ha.pcFrom m h
+  · intro m hm; rw [hn]
+    rcases hp m hm with h | h
+    · exact ha.pcFrom m h
+    · exact ha.commitsFrom m h
+  · rw [ht, hd, hr, hg]; exact ha.split
+  · rw [hn, hg]; exact ha.noSilent
+  · rw [hn, hr]; exact ha.noReport
+
+theorem acct_keep {s s' : St} (ha : AcctInv s) (hc : s'.g.commits = s.g.commits)
+    (hp : pcMeta s'.pc = none ∨ pcMeta s'.pc = pcMeta s.pc)
+    (hn : s'.g.nullFrom = s.g.nullFrom) (ht : s'.g.term = s.g.term) (hd : s'.g.dlv = s.g.dlv)
+    (hr : s'.g.reported = s.g.reported) (hg : s'.g.gaveUp = s.g.gaveUp) : AcctInv s' := by
+  apply acct_same ha _ _ hn ht hd hr hg
+  · intro m hm; rw [hc] at hm; exact .inl hm
+  · intro m hm
+    rcases hp with h | h
+    · rw [h] at hm; cases hm
+    · rw [h] at hm; exact .inl hm
+
+theorem acct_op {P : Params} {s s' : St} (ha : AcctInv s) (hs : step? P s .op = some s') : AcctInv s' := by
+  cases hpc : s.pc with
+  | store m h b i =>
+    simp only [step?, hpc] at hs
+    split at hs
+    · cases hs
+      apply acct_same ha
+      · intro m' hm'
+        dsimp only at hm'
+        split at hm'
+        · simp at hm'
+          rcases hm' with rfl | h
+          · exact .inr (by simp [pcMeta, hpc])
+          · exact .inl h
+        · exact .inl hm'
+      · intro m' hm'
+        dsimp only at hm'
+        left
+        split at hm' <;> simp [pcMeta] at hm' <;> simp [pcMeta, hpc, hm']
+      all_goals (dsimp only; split <;> rfl)
+    · cases hs
+  | abortRm i =>
+    simp only [step?, hpc] at hs
+    split at hs
+    · split at hs <;> cases hs <;> apply acct_keep ha <;> simp [pcMeta]
+    · cases hs
+  | update m i =>
+    simp only [step?, hpc] at hs
+    split at hs
+    · cases hs
+      apply acct_same ha
+      · intro m' hm'
+        dsimp only at hm'
+        split at hm'
+        · simp at hm'
+          rcases hm' with rfl | h
+          · exact .inr (by simp [pcMeta, hpc])
+          · exact .inl h
+        · exact .inl hm'
+      · intro m' hm'
+        dsimp only at hm'
+        left
+        split at hm' <;> simp [pcMeta] at hm' <;> simp [pcMeta, hpc, hm']
+      all_goals (dsimp only; split <;> rfl)
+    · cases hs
+  | remove i =>
+    simp only [step?, hpc] at hs
+    split at hs
+    · cases hs
+      apply acct_keep ha <;> try rfl
+      left; dsimp only; split <;> rfl
+    · cases hs
+  | clean ops =>
+    cases ops with
+    | nil => simp [step?, hpc] at hs
+    | cons o rest =>
+      simp only [step?, hpc] at hs
+      cases hs
+      apply acct_keep ha <;> try rfl
+      left; dsimp only; split <;> rfl
+  | quarantine =>
+    simp only [step?, hpc] at hs
+    cases hs
+    apply acct_keep ha <;> try rfl
+    left; rfl
+  | fresh => simp [step?, hpc] at hs
+  | stored m => simp [step?, hpc] at hs
+  | sched mem => simp [step?, hpc] at hs
+  | attempting m => simp [step?, hpc] at hs
+  | fin => simp [step?, hpc] at hs
+  | down => simp [step?, hpc] at hs
+
+theorem acct_accept {P : Params} {s s' : St} {rcpts : List Addr} {h b : Bytes} {nf : Bool}
+    (hi : Inv P s) (hs : step? P s (.accept rcpts h b nf) = some s') : AcctInv s' := by
+  cases hpc : s.pc <;> simp [step?, hpc] at hs
+  obtain ⟨_, rfl⟩ := hs
+  have hp := hi.pc
+  simp [PcInv, hpc] at hp
+  obtain ⟨_, hg⟩ := hp
+  constructor <;> simp [hg, pcMeta]
+
+theorem acct_dispatch {P : Params} {s s' : St} (hi : Inv P s) (ha : AcctInv s)
+    (hs : step? P s .dispatch = some s') : AcctInv s' := by
+  cases hpc : s.pc <;> simp [step?, hpc] at hs
+  rename_i mem
+  cases mem with
+  | some m =>
+    simp at hs; subst hs
+    apply acct_keep ha <;> try rfl
+    right; simp [pcMeta, hpc]
+  | none =>
+    simp only at hs
+    cases ho : openMsg P s.disk with
+    | ok m =>
+      simp [ho] at hs; subst hs
+      have h1 := (openMsg_ok hi.disk ho).1
+      have hmem : m ∈ s.g.commits := by
+        cases hc : s.g.commits with
+        | nil => simp [hc] at h1
+        | cons a t => simp [hc] at h1; simp [h1]
+      apply acct_same ha <;> try rfl
+      · intro m' hm'; exact .inl hm'
+      · intro m' hm'; simp [pcMeta] at hm'; subst hm'; exact .inr hmem
+    | clean ops =>
+      simp [ho] at hs; subst hs
+      apply acct_keep ha <;> try rfl
+      left; rfl
+    | fail =>
+      simp [ho] at hs; subst hs
+      apply acct_keep ha <;> try rfl
+      left; rfl
+
+theorem acct_outcome {P : Params} {s s' : St} {e : Errs} (ha : AcctInv s)
+    (hs : step? P s (.outcome e) = some s') : AcctInv s' := by
+  cases hpc : s.pc <;> simp only [step?, hpc] at hs <;> try cases hs
+  rename_i m
+  have hm : m.nullFrom = s.g.nullFrom := ha.pcFrom m (by simp [pcMeta, hpc])
+  have key : AcctInv { s with pc := .fin, g := { s.g with
+      term := s.g.term ++ delivered m e ++ (attemptResult P m e).failedR
+      dlv := s.g.dlv ++ delivered m e
+      reported := s.g.reported ++ reportedNow m (attemptResult P m e)
+      gaveUp := s.g.gaveUp ++ gaveUpNow m (attemptResult P m e) } } := by
+    constructor
+    · exact ha.commitsFrom
+    · intro m' hm'; simp [pcMeta] at hm'
+    · intro r hr
+      simp only [List.mem_append] at hr ⊢
+      rcases hr with (hr | hr) | hr
+      · rcases ha.split r hr with h | h | h
+        · exact .inl (.inl h)
+        · exact .inr (.inl (.inl h))
+        · exact .inr (.inr (.inl h))
+      · exact .inl (.inr hr)
+      · cases hnf : m.nullFrom with
+        | true => exact .inr (.inr (.inr (by simp [gaveUpNow, hnf, hr])))
+        | false => exact .inr (.inl (.inr (by simp [reportedNow, hnf, hr])))
+    · intro hn
+      have : m.nullFrom = false := by rw [hm]; exact hn
+      simp [gaveUpNow, this, ha.noSilent hn]
+    · intro hn
+      have : m.nullFrom = true := by rw [hm]; exact hn
+      simp [reportedNow, this, ha.noReport hn]
+  split at hs <;> cases hs
+  · exact ⟨key.commitsFrom, by intro m' hm'; simp [pcMeta] at hm', key.split, key.noSilent, key.noReport⟩
+  · refine ⟨key.commitsFrom, ?_, key.split, key.noSilent, key.noReport⟩
+    intro m' hm'
+    simp [pcMeta] at hm'; subst hm'
+    simpa [nextMeta] using hm
+
+theorem acct_restart {P : Params} {s s' : St} (ha : AcctInv s) (hs : step? P s .restart = some s') : AcctInv s' := by
+  cases hpc : s.pc <;> simp [step?, hpc] at hs
+  cases ho : scanMsg P.codec s.disk <;> simp [ho] at hs <;> subst hs <;> apply acct_keep ha <;> (try rfl) <;> (left; rfl)
+
+theorem acct_tornCrash {P : Params} {s s' : St} {n : Nat} {keep : FKind → Nat} (ha : AcctInv s)
+    (hs : step? P s (.tornCrash n keep) = some s') : AcctInv s' := by
+  simp only [step?] at hs
+  split at hs
+  · cases hs; apply acct_keep ha <;> (try rfl); left; rfl
+  · cases hs
+
+/-- Every step preserves the accounting invariant. -/
+theorem acct_step {P : Params} {s s' : St} (c : Choice) (hi : Inv P s) (ha : AcctInv s)
+    (hs : step? P s c = some s') : AcctInv s' := by
+  cases c with
+  | accept r h b nf => exact acct_accept hi hs
+  | op => exact acct_op ha hs
+  | commit =>
+    cases hpc : s.pc <;> simp [step?, hpc] at hs
+    subst hs; apply acct_keep ha <;> (try rfl); right; simp [pcMeta, hpc]
+  | abort =>
+    cases hpc : s.pc <;> simp [step?, hpc] at hs
+    subst hs; apply acct_keep ha <;> (try rfl); left; rfl
+  | dispatch => exact acct_dispatch hi ha hs
+  | outcome e => exact acct_outcome ha hs
+  | panic =>
+    cases hpc : s.pc <;> simp [step?, hpc] at hs
+    subst hs; apply acct_keep ha <;> (try rfl); left; rfl
+  | crash keep =>
+    simp [step?] at hs; subst hs; apply acct_keep ha <;> (try rfl); left; rfl
+  | tornCrash n keep => exact acct_tornCrash ha hs
+  | restart => exact acct_restart ha hs
+
+theorem acct_reach {P : Params} {s : St} (h : Reach P s) : AcctInv s := by
+  induction h with
+  | init => constructor <;> simp [pcMeta]
+  | step c hr hs ih => exact acct_step c (inv_reach hr) ih hs
+
+/-- **Which outcome.**  A recipient counted as having its terminal outcome was delivered by the target,
+or was named in a failure report handed to the bounce pipeline, or — only when the accepted
+transaction had the null reverse-path, for which `emitDSN` produces nothing — was given up on after a
+permanent failure / the last allowed attempt. -/
+theorem C02_terminal_outcome (P : Params) (s : St) (h : Reach P s) (r : Addr) (hr : r ∈ s.g.term) :
+    r ∈ s.g.dlv ∨ r ∈ s.g.reported ∨ (s.g.nullFrom = true ∧ r ∈ s.g.gaveUp) := by
+  have ha := acct_reach h
+  rcases ha.split r hr with h1 | h1 | h1
+  · exact .inl h1
+  · exact .inr (.inl h1)
+  · refine .inr (.inr ⟨?_, h1⟩)
+    cases hn : s.g.nullFrom with
+    | true => rfl
+    | false => rw [ha.noSilent hn] at h1; cases h1
+
+/-- The property as stated, sender included: accepted, not quarantined ⇒ every original recipient was
+delivered, or reported as failed, or is a recipient of the metadata recovery makes its next attempt
+with, or (null reverse-path only: there is nobody to report to) was given up on. -/
+theorem C02_accepted_survives_outcomes (P : Params) (s : St) (h : Reach P s)
+    (hacc : s.g.accepted = true) (hq : s.g.quarantined = false) (r : Addr) (hr : r ∈ s.g.orig) :
+    r ∈ s.g.dlv ∨ r ∈ s.g.reported ∨ (∃ m, recoverMeta P s.disk = some m ∧ r ∈ m.to) ∨
+      (s.g.nullFrom = true ∧ r ∈ s.g.gaveUp) := by
+  rcases C02_accepted_survives P s h hacc hq r hr with h1 | h1
+  · rcases C02_terminal_outcome P s h r h1 with h2 | h2 | h2
+    · exact .inl h2
+    · exact .inr (.inl h2)
+    · exact .inr (.inr (.inr h2))
+  · exact .inr (.inr (.inl h1))
+
+/-- With an ordinary reverse-path nobody is ever given up on silently; with the null one no report is made. -/
+theorem C02_report_iff_sender (P : Params) (s : St) (h : Reach P s) :
+    (s.g.nullFrom = false → s.g.gaveUp = []) ∧ (s.g.nullFrom = true → s.g.reported = []) :=
+  ⟨(acct_reach h).noSilent, (acct_reach h).noReport⟩
+
+/-- The stored reverse-path survives every rewrite of the metadata and every recovery: each committed
+snapshot, and the metadata every attempt is made with, carry the sender kind of the accepted transaction
+(so recovery schedules a null-sender message exactly like any other: `recoverMeta` does not look at it). -/
+theorem C02_sender_preserved (P : Params) (s : St) (h : Reach P s) :
+    (∀ m, m ∈ s.g.commits → m.nullFrom = s.g.nullFrom) ∧
+    (∀ m, s.pc = .attempting m → m.nullFrom = s.g.nullFrom) := by
+  have ha := acct_reach h
+  exact ⟨ha.commitsFrom, fun m hm => ha.pcFrom m (by simp [pcMeta, hm])⟩
 
 /-! ## the five on-disk situations and what recovery does with each -/
 
@@ -1376,8 +1675,8 @@ an empty body.  (Replayed on the real code: `C02 run 1 1 A1,16,7 +8 Xd R D Oo +3
 without the fix.) -/
 theorem C02_unfixed_order_counterexample :
     let P : Params := ⟨1, listCodec, fun _ => true⟩
-    let d := (execOps {} ((storeOpsUnfixed listCodec ⟨[1], []⟩ [83, 58, 120, 13, 10] [104, 105]).take 8)).lose (fun _ => 0)
-    recoverMeta P d = some ⟨[1], []⟩ ∧ d.header = some ⟨[], []⟩ ∧ d.body = some ⟨[], []⟩ := by
+    let d := (execOps {} ((storeOpsUnfixed listCodec ⟨[1], [], false⟩ [83, 58, 120, 13, 10] [104, 105]).take 8)).lose (fun _ => 0)
+    recoverMeta P d = some ⟨[1], [], false⟩ ∧ d.header = some ⟨[], []⟩ ∧ d.body = some ⟨[], []⟩ := by
   decide
 
 /-! ## non-vacuity: concrete runs that satisfy the hypotheses of the theorems above -/
@@ -1407,19 +1706,19 @@ def errs2 : Errs := fun r => if r = 2 then some .temp else none
 /-- accept for recipients 1, 2; commit; first attempt (1 delivered, 2 to be retried); the process
 stops in the middle of writing `.meta.new` and all un-synced data is lost. -/
 def demoTorn : List Choice :=
-  [.accept [1, 2] [83, 58, 120, 13, 10] [104, 105]] ++ List.replicate 10 .op ++
+  [.accept [1, 2] [83, 58, 120, 13, 10] [104, 105] false] ++ List.replicate 10 .op ++
   [.commit, .dispatch, .outcome errs2, .op, .tornCrash 2 (fun _ => 0)]
 
 /-- … the metadata update completes, the retry is scheduled, the process stops; restart; the
 retry begins; the process stops again inside the recovery run; restart; retry. -/
 def demoDeep : List Choice :=
-  [.accept [1, 2] [83, 58, 120, 13, 10] [104, 105]] ++ List.replicate 10 .op ++
+  [.accept [1, 2] [83, 58, 120, 13, 10] [104, 105] false] ++ List.replicate 10 .op ++
   [.commit, .dispatch, .outcome errs2, .op, .op, .op, .op, .crash (fun _ => 0), .restart, .dispatch,
    .outcome errs2, .op, .op, .crash (fun _ => 0), .restart, .dispatch]
 
 /-- accept, then abort; crash; restart -/
 def demoAbort : List Choice :=
-  [.accept [1] [83, 58, 120, 13, 10] [104, 105]] ++ List.replicate 10 .op ++
+  [.accept [1] [83, 58, 120, 13, 10] [104, 105] false] ++ List.replicate 10 .op ++
   [.abort, .op, .op, .op, .crash (fun _ => 0), .restart]
 
 def Pc.isDown : Pc → Bool
@@ -1431,18 +1730,39 @@ is the interesting disjunct: recipient 1 has its outcome, recipient 2 is recover
 metadata (the torn `.meta.new` is ignored). -/
 example : (runChoices P0 {} demoTorn).map (fun s =>
     (Pc.isDown s.pc, s.g.accepted, s.g.quarantined, s.g.orig, s.g.term, recoverMeta P0 s.disk, s.disk.metaNew)) =
-    some (true, true, false, [1, 2], [1], some ⟨[1, 2], []⟩, some ⟨[], []⟩) := by rfl
+    some (true, true, false, [1, 2], [1], some ⟨[1, 2], [], false⟩, some ⟨[], []⟩) := by rfl
 
 /-- Depth 2: two crashes, the second inside the recovery run; the attempts only shrink
 (`C02_no_resend_after_later_attempt`), the retry counter of the last COMMITTED snapshot survived. -/
 example : (runChoices { P0 with maxTries := 3 } {} demoDeep).map (fun s =>
     (s.g.accepted, s.g.term, s.g.attempts, s.g.commits.map (·.to), recoverMeta P0 s.disk)) =
-    some (true, [1], [[2], [2], [1, 2]], [[2], [1, 2]], some ⟨[2], [(2, 1)]⟩) := by rfl
+    some (true, [1], [[2], [2], [1, 2]], [[2], [1, 2]], some ⟨[2], [(2, 1)], false⟩) := by rfl
 
 /-- Hypotheses of `C02_aborted_never_delivered`. -/
 example : (runChoices P0 {} demoAbort).map (fun s =>
     (s.g.aborted, s.g.accepted, s.g.attempts, recoverMeta P0 s.disk, classOf s.disk)) =
     some (true, false, [], none, Class.absent) := by rfl
+
+/-- Null reverse-path (a bounce relayed through the queue), recipients 1, 2: recipient 2 fails
+permanently in the first attempt (no report: `emitDSN` returns for the null sender), recipient 1
+temporarily; the process stops after the metadata update; restart. -/
+def errsNull : Errs := fun r => if r = 2 then some .perm else some .temp
+
+def demoNull : List Choice :=
+  [.accept [1, 2] [83, 58, 120, 13, 10] [104, 105] true] ++ List.replicate 10 .op ++
+  [.commit, .dispatch, .outcome errsNull, .op, .op, .op, .op, .crash (fun _ => 0), .restart]
+
+/-- Hypotheses of `C02_accepted_survives_outcomes` / `C02_terminal_outcome` with the null sender: recipient 2
+was given up on (nothing reported), recipient 1 is recovered — the message is scheduled like any other. -/
+example : (runChoices { P0 with maxTries := 3 } {} demoNull).map (fun s =>
+    (s.g.accepted, s.g.nullFrom, s.g.term, s.g.dlv, s.g.reported, s.g.gaveUp, recoverMeta P0 s.disk)) =
+    some (true, true, [2], [], [], [2], some ⟨[1], [(1, 1)], true⟩) := by rfl
+
+/-- The same run with an ordinary sender: recipient 2 is reported. -/
+example : (runChoices { P0 with maxTries := 3 } {}
+      ([.accept [1, 2] [83, 58, 120, 13, 10] [104, 105] false] ++ demoNull.drop 1)).map (fun s =>
+    (s.g.term, s.g.dlv, s.g.reported, s.g.gaveUp, recoverMeta P0 s.disk)) =
+    some ([2], [], [2], [], some ⟨[1], [(1, 1)], false⟩) := by rfl
 
 theorem demoTorn_runs : (runChoices P0 {} demoTorn).isSome = true := by decide
 
